@@ -766,6 +766,9 @@ pub fn run_scenario<S: Sut>(sc: &Value, out: &mut Out, mut mout: Option<&mut Out
         let sut = objs.get_mut(&name).unwrap();
         let mpre = if mout.is_some() { sut.mstate() } else { Value::Null };
         let rec = sut.apply(&stp["op"], other.as_ref());
+        if rec["skip"] == true {
+            continue;
+        }
         let mut full = Map::new();
         full.insert("k".into(), json!("p"));
         full.insert("s".into(), json!(S::TAG));
